@@ -78,3 +78,8 @@ func VerifParsePipe(e string) (initial string, segs [][]string) {
 	}
 	return p.initial, segs
 }
+
+// VerifEscapeAttrValue, VerifShouldEscapeTextNode and VerifRenderAttrs expose the serialiser's escaping decisions.
+func VerifEscapeAttrValue(v string) string       { return escapeAttrValue(v) }
+func VerifShouldEscapeTextNode(s string) bool    { return shouldEscapeTextNode(s) }
+func VerifRenderAttrs(a []html.Attribute) string { return renderAttrs(a) }
